@@ -1,4 +1,5 @@
 ---------------------------- MODULE MC_Locks ----------------------------
-EXTENDS Locks, Json, IOUtils, TLC
+EXTENDS Locks, Json, IOUtils
 ProtosFromFile == JsonDeserialize(IOEnv.PROTOS)
+ViewsFromFile == JsonDeserialize(IOEnv.VIEWS)
 =========================================================================
